@@ -240,11 +240,17 @@ func verifyFunctionCase(prog *Program, ctr *Contracts, key string, disabled map[
 			}
 		}
 	}
+	var fvRefs []string
 	for _, fv := range fn.FreeVars {
 		et := fv.Type().Underlying().(*types.Pointer).Elem()
 		ref := ex.sc.Fresh("fv."+fv.Name(), SInt)
 		ex.sc.Assume(mkAnd(mkApp("<", "0", ref), mkApp("<=", ref, alloc0)))
 		fr.vals[fv] = Val{K: VPtr, P: &Ptr{Root: "obj", Base: et, Ref: ref, Elem: et}}
+		fvRefs = append(fvRefs, ref)
+	}
+	// distinct captured variables are distinct allocations
+	if len(fvRefs) > 1 {
+		ex.sc.Assume(mkApp("distinct", fvRefs...))
 	}
 	env0 := fr.topEnv(st)
 	env0.old = st
